@@ -802,6 +802,19 @@ func classifyMig(res *lib.Result, c *MigCase) {
 	if len(migrated) == 0 {
 		res.Hit("migrated:upgrade-of-a-database-without-contracts")
 	}
+	for _, sys := range []string{"1", "2"} {
+		if ct, ok := a.contracts[sys]; ok && len(ct.storage) == 0 {
+			// (the unrepaired legacy backend keeps the record of such a contract: the migrator then writes a Contract
+			// record the trie2 database has no leaf for)
+			res.Hit("migrated:system-contract-emptied-before-the-upgrade")
+			for n := range c.Post {
+				if _, w := c.Post[n].Storage[sys]; w {
+					res.Hit("migrated:system-contract-emptied-before-the-upgrade:written-again-afterwards")
+					break
+				}
+			}
+		}
+	}
 	for n := range c.Post {
 		b := &c.Post[n]
 		touched := map[string]bool{}
@@ -864,4 +877,25 @@ func runMigratedFamilies(f lib.Flags, res *lib.Result, drv *lib.Driver, r *lib.R
 		cs = append(cs, genLargeMigCase(r.Fork(uint64(1_000_000+i))))
 	}
 	checkMigrated(f, res, drv, cs, "state-migrated-large")
+	// more contracts than the migrator has ingestor goroutines (ingestorCount = 4, one batch each + 1) and than the
+	// parallel thresholds of the tries (> 100): 110..160 contracts migrated at once, then blocks that touch 3..40
+	// of them through nonce or storage
+	cs = nil
+	for i := 0; i < f.Scale(1, 10); i++ {
+		mc := genManyContractsCase(r.Fork(uint64(2_000_000 + i)))
+		cs = append(cs, &MigCase{Pre: mc.Blocks[:1], Post: mc.Blocks[1:]})
+	}
+	// ... and 1..9 contracts (straddles ingestorCount)
+	for n := 1; n <= f.Scale(9, 12); n++ {
+		pre := SBlock{Version: "0.13.2", Deployed: map[string]string{}, Storage: map[string]map[string]string{}}
+		post := SBlock{Version: "0.13.2", Nonces: map[string]string{}}
+		for j := 0; j < n; j++ {
+			ad := fmt.Sprintf("a%02x", j)
+			pre.Deployed[ad] = "c1a55"
+			pre.Storage[ad] = map[string]string{"1": fmt.Sprintf("%x", j+1)}
+			post.Nonces[ad] = "1"
+		}
+		cs = append(cs, &MigCase{Pre: []SBlock{pre}, Post: []SBlock{post}})
+	}
+	checkMigrated(f, res, drv, cs, "state-migrated-many")
 }
